@@ -13,7 +13,7 @@ from ..sym import Rat, C
 from ..values import Num, Const, Tup, Term, Obj, P, Val, Kw, Gam, veq, walk_vals, arr_param, term_as_num, fresh_serial
 from ..model import AnalysisError
 from ..symeval import Evaluator, State, Frame
-from .common import show, REPO_RESULT_KIND, S, ModSpec, same, arr_term, targ, SAU, need_num, run as runf
+from .common import same_extent, show, REPO_RESULT_KIND, S, ModSpec, same, arr_term, targ, SAU, need_num, run as runf
 
 INTERVAL = 'traffic_weaver.interval.IntervalArray'
 PROC = 'traffic_weaver.process.'
@@ -352,11 +352,11 @@ def check_rules(ctx):
     want = sym.mk_sum(a.at(sym.idx() + lo).r, hi - lo)
     from .common import foreign_heads
     fh = foreign_heads(r, Num(want, J))
-    if not (r.length is not None and r.r == want and r.length == J) and fh:
+    if not (r.length is not None and r.r == want and same_extent(r.length, J)) and fh:
         ctx.unknown('C17.5', 'sum_over_indices: element j = sum of a[ind[j]:ind[j+1]]', f"construction not recognised (uses {fh}): {show(r, 200)}", sfi.loc(), sfi.qualname,
                     'range-sums')
     else:
-        ctx.check(r.length is not None and r.r == want and r.length == J, 'C17.5', 'sum_over_indices: element j = sum of a[ind[j]:ind[j+1]]', show(r, 200), sfi.loc(),
+        ctx.check(r.length is not None and r.r == want and same_extent(r.length, J), 'C17.5', 'sum_over_indices: element j = sum of a[ind[j]:ind[j+1]]', show(r, 200), sfi.loc(),
                   sfi.qualname, 'range-sums')
 
 
